@@ -25,12 +25,19 @@
 (*                  old states stay: the same request repeated is then a HIT on another proof's states)                    *)
 (*   SwFailKeeps    a failed step does not touch the session (FALSE is a pure mutant: the attempt works on the cached       *)
 (*                  states themselves instead of a copy, so the cached outcomes are spoilt under an unchanged key)          *)
+(*   SwCreateAtomic also covers init-saved-proof with a statement that does not parse (initbad): create_cache fails after  *)
+(*                  the theory was loaded                                                                                   *)
 (* The statement's clauses are the invariants Totality, Persistence, SaveExact, RemoveExact, ReadOnly, Faithful (the answer *)
 (* is the answer of a fresh server = a function of the user's own files and the request), FailedStepKeeps and Isolation     *)
 (* (the answer equals the answer of a shadow server that only ever saw this user's requests).  With Record = TRUE every    *)
 (* behaviour is kept in `hist` and printed by Finish as a vector for harness/drivers/x05.py; with EmitBadOnly the           *)
 (* exploration stops at the first step that breaks a clause and only those behaviours are printed (discriminating          *)
-(* histories of the as-coded mechanisms).                                                                                  *)
+(* histories of the as-coded mechanisms).  KeepLast = TRUE keeps the judged last step in the state (`last`, invariants on   *)
+(* last.viol; used for the mechanism mutants, whose counterexamples become vectors); KeepLast = FALSE judges every step by an  *)
+(* Assert inside the action and forgets it, MaxOps = 0 drops the request counter: states are then only (files, server,          *)
+(* shadows, clients) and ALL behaviours of <= MaxLevel requests are covered by a breadth-first search of MaxLevel levels        *)
+(* (-workers 1).  Constants of the shipped configurations: check = 4 requests, deep = 6, emit = all behaviours of 2, emit3 = all *)
+(* behaviours of 3 that begin by opening a proof, sim = simulated behaviours of 6, ascoded = every mechanism as coded, <= 3.     *)
 EXTENDS Naturals, Sequences, FiniteSets, TLC, Json
 CONSTANTS MaxOps, MaxLevel, KeepLast, Record, EmitBadOnly, Interferer, FirstOpens,
           SwOrderUser, SwLoadUser, SwFreshMeta, SwTotal, SwApplyReload, SwCacheWorld, SwCreateAtomic, SwFailKeeps
